@@ -344,7 +344,14 @@ BREADTH = {
 LONG_RUNS = {"statements", "if_blocks", "def_blocks", "for_else_blocks", "with_blocks", "try_blocks", "class_blocks", "while_nested_blocks", "match_blocks", "with_macro_blocks"}
 
 
+# bracket nests that stay cheap and well inside the recursion limit: measured much deeper (a quadratic term with a small
+# coefficient only shows at depth)
+DEEP = {"del_paren", "del_bracket", "del_paren_attr", "paren_target", "list_target", "del_nested", "for_target", "with_nested_paren", "match_group", "match_seq", "walrus", "proc_group", "slices", "annot", "match_class", "match_map"}
+
+
 def sizes(ctx_thorough: bool, breadth: bool, name: str = ""):
+    if name in DEEP:
+        return (16, 32, 64, 128, 256)
     if name in LONG_RUNS:  # position-dependent costs need length to show: up to a few thousand tokens
         return (64, 128, 256, 512, 1024) if ctx_thorough else (64, 128, 256, 512)
     if breadth:
